@@ -16,13 +16,13 @@ RULE = ("three depth-bounded exhaustive explorations, every edge one real proces
         "parent table: (1b) batches of 1-2 position messages of two aircraft 540 NM apart per call, all sequences of 3 (4) calls; (1) positions - one aircraft on 8 scripted trajectories (NL transitions, equator, antimeridian, "
         "lon 0, high latitude, take-off, taxi across the equator), events {even, odd} x gaps either side of every "
         "threshold (10 s, 180 s) plus a 1500 s gap that outruns the 180 NM reference range; (2) listing / Comm-B gating - two aircraft x {ident, position, BDS50, BDS60} x "
-        "gaps around 59/61 s, upper- and lower-case tables advanced in lockstep; (3) robustness - all ordered pairs "
+        "gaps around 59/61 s, upper- and lower-case tables advanced in lockstep; (2b) the same with calls that happen 0 / 1.4 s after the message was stamped (tnow > t) and calls that carry no message at all (only time passes); (3) robustness - all ordered pairs "
         "(triples thorough) over an alphabet of arbitrary/corrupt DF17/18 and DF20/21 messages from the empty table "
-        "and from seed states; distinct = distinct canonical table states")
+        "and from seed states; (3b) every combination of record features (position none / with altitude / altitude unknown / surface) x (velocity none / ground speed) x (version none / 1 / 2) x all singles and ordered pairs of Comm-B replies chosen to cover every distinct answer of infer() incl. multi-candidate ones, in DF20 carriers with and without a decodable altitude and in DF21; distinct = distinct canonical table states")
 ASSUMPTIONS = [
     "trajectories stay below |lat| 86.4 deg: beyond that the CPR longitude quantum itself exceeds 0.001 deg",
     "stored longitude is compared modulo 360 (position_with_ref may legitimately return lon outside [-180,180))",
-    "explorations 1-3 use one message per process_raw call, tnow = message time; exploration 1b feeds batches of 1-2 ADS-B messages of two distant aircraft per call (the order of ADS-B vs Comm-B inside one batch is not explored)",
+    "explorations 1-3 use one message per process_raw call, tnow = message time (2b: tnow = message time + 0 / 1.4 s, and empty calls); exploration 1b feeds batches of 1-2 ADS-B messages of two distant aircraft per call (the order of ADS-B vs Comm-B inside one batch is not explored)",
     "last-heard time of the reference counts a Comm-B message only if the aircraft was listed when it arrived",
     "surface phases use realistic speeds (<= 40 kt taxi) and a receiver within 30 NM",
 ]
@@ -283,26 +283,36 @@ class S2:
         self.du, self.dl, self.now, self.heard, self.exc, self.last = du, dl, now, heard, exc, last
 
 
-def step2(st, who, kind, gap):
-    msg, cls = msg2(kind, who)
+def step2(st, who, kind, gap, lag=0.0):
+    """one call: the message is stamped st.now + gap, the call happens (tnow) lag seconds later; kind 'tick' is a call
+    with no message at all (time passes, the decoder process still calls process_raw for every batch it is handed)."""
     t = st.now + gap
+    tnow = t + lag
     du, dl = copy.deepcopy(st.du), copy.deepcopy(st.dl)
-    key = "%06X" % AC2[who]
-    listed_before = key in du.acs
     heard = dict(st.heard)
     exc = None
+    if kind == "tick":
+        try:
+            du.process_raw([], [], [], [], tnow=tnow)
+            dl.process_raw([], [], [], [], tnow=tnow)
+        except Exception as e:  # noqa: BLE001
+            exc = type(e).__name__
+        return S2(du, dl, tnow, heard, exc, None)
+    msg, cls = msg2(kind, who)
+    key = "%06X" % AC2[who]
+    listed_before = key in du.acs
     try:
         if cls == "adsb":
-            du.process_raw([t], [msg.upper()], [], [], tnow=t)
-            dl.process_raw([t], [msg.lower()], [], [], tnow=t)
+            du.process_raw([t], [msg.upper()], [], [], tnow=tnow)
+            dl.process_raw([t], [msg.lower()], [], [], tnow=tnow)
         else:
-            du.process_raw([], [], [t], [msg.upper()], tnow=t)
-            dl.process_raw([], [], [t], [msg.lower()], tnow=t)
+            du.process_raw([], [], [t], [msg.upper()], tnow=tnow)
+            dl.process_raw([], [], [t], [msg.lower()], tnow=tnow)
     except Exception as e:  # noqa: BLE001
         exc = type(e).__name__
     if cls == "adsb" or listed_before:
         heard[key] = t
-    return S2(du, dl, t, heard, exc, (key, cls, listed_before))
+    return S2(du, dl, tnow, heard, exc, (key, cls, listed_before))
 
 
 def inv2(st, acc=None):
@@ -330,8 +340,28 @@ def inv2(st, acc=None):
     return None
 
 
+LAG_KINDS = ["id", "b50", "tick"]
+LAG_GAPS = [0.3, 57.4, 61.2]
+LAGS = [0.0, 1.4]
+
+
+def lag_events():
+    """exploration 2b: the call happens `lag` seconds after the message was stamped, and calls without any message."""
+    ev = []
+    for kind in LAG_KINDS:
+        for who in (("A",) if kind == "tick" else ("A", "B")):
+            for gap in LAG_GAPS:
+                for lag in ((0.0,) if kind == "tick" else LAGS):
+                    ev.append((who, kind, gap, lag))
+    return ev
+
+
 def run_listing(prefix, depth, kinds, gaps, acc):
     def succ(st):
+        if kinds == "lag":
+            for ev in lag_events():
+                yield ev, step2(st, *ev)
+            return
         for who in ("A", "B"):
             for kind in kinds:
                 for gap in gaps:
@@ -342,9 +372,9 @@ def run_listing(prefix, depth, kinds, gaps, acc):
 
     st = S2(Decode(), Decode(), 1000.7, {})
     trace = []
-    for who, kind, gap in prefix:
-        st = step2(st, who, kind, gap)
-        trace.append((who, kind, gap))
+    for ev in prefix:
+        st = step2(st, *ev)
+        trace.append(tuple(ev))
         v = inv2(st, acc)
         if v:
             return [(v[0], trace, v[1])], 1, len(trace)
@@ -354,8 +384,8 @@ def run_listing(prefix, depth, kinds, gaps, acc):
 
 def replay_listing(events):
     st = S2(Decode(), Decode(), 1000.7, {})
-    for who, kind, gap in events:
-        st = step2(st, who, kind, gap)
+    for ev in events:
+        st = step2(st, *ev)
         v = inv2(st)
         if v:
             return v[0]
@@ -451,6 +481,128 @@ def replay_robust(seed_name, msgs):
     return None
 
 
+# ------------------------------------------------------------------ exploration 3b: record features x inferred registers
+def feature_seeds():
+    """tables that differ in what is known about the aircraft when a Comm-B reply arrives: position none / airborne with
+    altitude / airborne with the altitude field 0 (stored alt is None) / surface; velocity none / ground speed; version
+    none / 1 / 2.  Every combination (24 seed states), all messages within 3 s so that everything is fresh."""
+    tr, tx = TRAJ["stationary"], TRAJ["taxi_across_equator"]
+
+    def air(t, oe, alt12):
+        lat, lon = tr.pos(t)
+        e = C.encode(Fr(lat), Fr(lon), oe, False)
+        return F.es(C.me_airborne(11, alt12, oe, e["yz"], e["xz"]), ICAO1, 5, 17)
+    pos = {"nopos": [], "air_alt": [air(1.0, 0, 0xC38), air(1.2, 1, 0xC38)], "air_noalt": [air(1.0, 0, 0), air(1.2, 1, 0)],
+           "surface": [pos_msg(tx, 1.0, 0), pos_msg(tx, 1.2, 1)]}
+    # TC19 subtype 1, 300 kt east / 200 kt north, vertical rate available
+    vel = {"novel": [], "gs": [F.es(F.me(19, [(6, 3, 1), (14, 1, 0), (15, 10, 301), (25, 1, 0), (26, 10, 201), (36, 1, 0), (37, 1, 0), (38, 9, 10)]), ICAO1, 5, 17)]}
+    ver = {"nover": []}
+    for v in (1, 2):
+        ver["ver%d" % v] = [F.es(F.me(31, [(41, 3, v), (44, 1, 1), (20, 1, 1)]), ICAO1, 5, 17)]
+    seeds = {}
+    for pn, pm_ in pos.items():
+        for vn, vm in vel.items():
+            for rn, rm in ver.items():
+                seeds["%s+%s+%s" % (pn, vn, rn)] = pm_ + vm + rm
+    return seeds
+
+
+def register_alphabet():
+    """Comm-B replies grouped by what the real infer() says about them and by which BDS 5,0 / 6,0 status bits they set
+    (only used to pick the alphabet: one payload per distinct (answer, status pattern), so that every branch of the Comm-B merge - including multi-candidate answers such as
+    'BDS50,BDS60' - is driven from every seed state), in a DF20 carrier whose altitude decodes and in one whose altitude
+    field is zero, and in DF21."""
+    import checks.c12 as c12
+    from spec import bds_rules as BR
+    pool = []
+    for reg in ("BDS10", "BDS17", "BDS20", "BDS30", "BDS40", "BDS44", "BDS45", "BDS50", "BDS60"):
+        v = BR.valid(reg)
+        pool += v[:: max(1, len(v) // 40)]
+    pool += [mb for mb, _, _, _ in c12.constructed_5060()]
+    pool += [0, (1 << 56) - 1, 0xAAAAAAAAAAAAAA, 0x55555555555555]
+    by = {}
+    stat = [1, 12, 13, 24, 35, 46]      # status bits of the BDS 5,0 / 6,0 fields: which values a merge would read
+    for mb in dict.fromkeys(pool):
+        sig = tuple((mb >> (56 - b)) & 1 for b in stat)
+        for rest in (0x0001838, 0x0000000):
+            m = F.long_ap(20, rest, mb, ICAO1)
+            try:
+                ans = str(pms.bds.infer(m))
+            except Exception as e:  # noqa: BLE001
+                ans = "raises:" + type(e).__name__
+            lst = by.setdefault((ans, rest, sig), [])
+            if not lst:
+                lst.append(m)
+                if rest:
+                    lst.append(F.long_ap(21, 0x0000AAA, mb, ICAO1))
+    msgs = []
+    for k in sorted(by):
+        msgs += by[k]
+    return list(dict.fromkeys(msgs)), sorted({k[0] for k in by})
+
+
+def run_features(seed_name, acc, full=False):
+    seeds = feature_seeds()
+    alpha, answers = register_alphabet()
+    # second message: the whole alphabet (thorough) or one reply per distinct infer() answer and carrier (quick)
+    seen, second = set(), []
+    for m in alpha:
+        k = (str(pms.bds.infer(m)), m[:8])
+        if full or k not in seen:
+            seen.add(k)
+            second.append(m)
+    d0 = Decode(latlon=(0.30, 32.60))
+    t = 1.0
+    for m in seeds[seed_name]:
+        d0.process_raw([t], [m], [], [], tnow=t)
+        t += 0.2
+    viols, n, states = [], 0, set()
+    adsb_again = seeds[seed_name][-1:]      # the last ADS-B message once more, after the Comm-B replies
+    for i, m1 in enumerate(alpha):
+        d1 = copy.deepcopy(d0)
+        n += 1
+        try:
+            d1.process_raw([], [], [t + 1.5], [m1], tnow=t + 1.5)
+        except Exception as e:  # noqa: BLE001
+            viols.append(("table:process_raw_raises:%s" % type(e).__name__, {"seed": seed_name, "msgs": [m1]}))
+            continue
+        for m2 in second + adsb_again:
+            d2 = copy.deepcopy(d1)
+            n += 1
+            try:
+                if int(m2[:2], 16) >> 3 in (17, 18):
+                    d2.process_raw([t + 3.0], [m2], [], [], tnow=t + 3.0)
+                else:
+                    d2.process_raw([], [], [t + 3.0], [m2], tnow=t + 3.0)
+            except Exception as e:  # noqa: BLE001
+                viols.append(("table:process_raw_raises:%s" % type(e).__name__, {"seed": seed_name, "msgs": [m1, m2]}))
+                continue
+            states.add(hash(canon(d2.acs)))
+    acc.c["commb_alphabet"] = len(alpha)
+    acc.c["infer_answers_in_alphabet"] = len(answers)
+    return viols, len(states), n
+
+
+def replay_features(seed_name, msgs):
+    seeds = feature_seeds()
+    d = Decode(latlon=(0.30, 32.60))
+    t = 1.0
+    for m in seeds[seed_name]:
+        d.process_raw([t], [m], [], [], tnow=t)
+        t += 0.2
+    for k, m in enumerate(msgs):
+        tt = t + 1.5 * (k + 1)
+        try:
+            if int(m[:2], 16) >> 3 in (17, 18):
+                d.process_raw([tt], [m], [], [], tnow=tt)
+            else:
+                d.process_raw([], [], [tt], [m], tnow=tt)
+        except Exception as e:  # noqa: BLE001
+            return "table:process_raw_raises:%s" % type(e).__name__
+    return None
+
+
+
 # ------------------------------------------------------------------ workers
 def w_any(task):
     kind = task[0]
@@ -472,13 +624,19 @@ def w_any(task):
         for sig, trace in v:
             acc.bad(sig, {"kind": "batch", "batches": [[list(x) for x in b] for b in trace]})
         acc.out.add(("batch", first))
+    elif kind == "feat":
+        _, seed_name, full = task
+        v, s, tr = run_features(seed_name, acc, full)
+        for sig, info in v:
+            acc.bad(sig, {"kind": "feat", "seed": info["seed"], "msgs": info["msgs"]})
+        acc.out.add(("feat", seed_name))
     elif kind == "list":
         _, prefix, depth, kinds, gaps = task
         v, s, tr = run_listing(prefix, depth, kinds, gaps, acc)
         for sig, trace, info in v:
             acc.bad(sig, {"kind": "list", "events": [list(e) for e in trace], "info": info})
         acc.out.add(("list", tuple(prefix)))
-        if prefix == (("A", "id", 0.3),):
+        if tuple(prefix[0]) == ("A", "id", 0.3) and tuple(prefix[1]) == ("A", "id", 0.3):
             acc.samples.append({"exploration": "listing", "prefix": [list(p) for p in prefix], "msg": msg2("id", "A")[0]})
     else:
         _, seed_name, firsts, full, depth = task
@@ -509,8 +667,14 @@ def run(ctx):
     for a in ev2:
         for b in ev2:
             tasks.append(("list", (a, b), d2, kinds, gaps))
+    ev2b = lag_events()
+    for a in ev2b:
+        for b in ev2b:
+            tasks.append(("list", (a, b), 5 if ctx.thorough else 4, "lag", None))
     for b in BATCHES:
         tasks.append(("batch", b, 4 if ctx.thorough else 3))
+    for sn in feature_seeds():
+        tasks.append(("feat", sn, ctx.thorough))
     alpha = robust_alphabet(ctx.thorough)
     seeds = list(seed_states())
     for s in seeds:
@@ -536,6 +700,8 @@ def replay(case):
         s = replay_positions(case["traj"], [tuple(e) for e in case["events"]])
     elif case["kind"] == "batch":
         s = replay_batches(case["batches"])
+    elif case["kind"] == "feat":
+        s = replay_features(case["seed"], case["msgs"])
     elif case["kind"] == "list":
         s = replay_listing([tuple(e) for e in case["events"]])
     else:
